@@ -56,6 +56,8 @@ type Rec struct {
 	MaxLen int       `json:"maxlen,omitempty"` // cfg
 	LexL   string    `json:"lexL,omitempty"`
 	LexE   string    `json:"lexE,omitempty"`
+	LexLR  string    `json:"lexLR,omitempty"`
+	LexDR  string    `json:"lexDR,omitempty"`
 }
 
 type CallJ struct {
@@ -83,15 +85,36 @@ type Mismatch struct {
 var foreignBytes = []byte{0x00, 0x01, 0x07, 0x09, 0x0a, 0x0d, 0x1f, 0x7f, 0x80, 0x9f, 0xa0, 0xc3, 0xe2, 0xf0, 0xfe, 0xff,
 	'_', '#', '!', '"', '$', '%', '&', '\'', '*', ',', '/', ';', '<', '=', '>', '?', '@', '[', '\\', ']', '^', '`', '{', '|', '}', '~'}
 
+// well-formed multi-byte runes, by encoded length: what a rune-aware or Unicode-aware rewrite of the scanner
+// or of the table lookup would treat as a letter, a digit, a blank or a case partner of an ASCII letter.
+// A run of k '#' symbols may stand for one rune of k bytes, so byte offsets stay as the model computed them.
+var foreignRunes = map[int][]string{
+	2: {"\u00e9", "\u017f", "\u0131", "\u0130", "\u00a0", "\u0085", "\u0663", "\u0391", "\u0410", "\u00df", "\u00b5", "\u0301", "\u00ad"},
+	3: {"\u212a", "\u2003", "\u2028", "\u3000", "\uff2d", "\uff11", "\ufeff", "\u2010", "\u2212", "\uff0b", "\uff08", "\uff09", "\uff1a", "\u1e9e", "\u200b", "\ufffd"},
+	4: {"\U0001d40c", "\U0001d7cf", "\U0001f600", "\U00010400"},
+}
+
 func substOther(s string, rng *rand.Rand) string {
 	if !strings.Contains(s, "#") {
 		return s
 	}
 	b := []byte(s)
-	for i := range b {
-		if b[i] == '#' {
-			b[i] = foreignBytes[rng.Intn(len(foreignBytes))]
+	for i := 0; i < len(b); i++ {
+		if b[i] != '#' {
+			continue
 		}
+		run := 1
+		for i+run < len(b) && b[i+run] == '#' {
+			run++
+		}
+		if run >= 2 && rng.Intn(2) == 0 {
+			k := 2 + rng.Intn(min(run, 4)-1)
+			r := foreignRunes[k][rng.Intn(len(foreignRunes[k]))]
+			copy(b[i:], r)
+			i += k - 1
+			continue
+		}
+		b[i] = foreignBytes[rng.Intn(len(foreignBytes))]
 	}
 	return string(b)
 }
